@@ -248,7 +248,54 @@ def shape_array_capture(rng, tier):
         "shout(outerf([0]))\nshout(%(arr)s)\n" % {"arr": arr, "nm": nm, "j": j})
 
 
-SHAPES = [shape_nest, shape_mutual, shape_closure, shape_forward, shape_param_shadow, shape_loop_fn, shape_array_capture]
+def shape_callee_assign(rng, tier):
+    """a function that reads and assigns a variable of the enclosing scope, called from functions that
+    have a local / a parameter with the same name (dynamic scoping would hit the caller's variable)"""
+    x = rng.choice(["a", "b", "count"])
+    v = rng.randint(1, 5)
+    return (
+        "make %(x)s get 0\n"
+        "do bump() start\n"
+        "  %(x)s get %(x)s add %(v)d\n"
+        "  return %(x)s\n"
+        "end\n"
+        "do peek() start return \"{%(x)s}\" end\n"
+        "do runner() start\n"
+        "  make %(x)s get 100\n"
+        "  bump()\n"
+        "  shout(bump())\n"
+        "  shout(peek())\n"
+        "  shout(%(x)s)\n"
+        "end\n"
+        "do withparam(%(x)s) start\n"
+        "  bump()\n"
+        "  shout(peek())\n"
+        "  return %(x)s\n"
+        "end\n"
+        "runner()\nshout(%(x)s)\nshout(withparam(7))\nbump()\nshout(%(x)s)\n" % {"x": x, "v": v})
+
+
+def shape_rec_array(rng, tier):
+    """every activation of a recursive function owns its own array; it is mutated in place (index
+    assignment, push, pop, reverse, nested index) while deeper and shallower activations are live"""
+    k = rng.randint(1, 3 if tier == "quick" else 7)
+    it = rng.choice(["a", "items", "c"])
+    op = rng.choice(["%(it)s.push(n add 100)", "%(it)s.reverse()", "shout(%(it)s.pop())", "%(it)s[0] get n add 7"]) % {"it": it}
+    return (
+        "make %(it)s get [\"outer\"]\n"
+        "do build(n) start\n"
+        "  make %(it)s get [n, 0, [n]]\n"
+        "  if to say (n pass 0) start build(n minus 1) end\n"
+        "  %(it)s[1] get n times 10\n"
+        "  %(it)s[2].push(n)\n"
+        "  %(op)s\n"
+        "  if to say (n na 1) start build(0) end\n"
+        "  shout(%(it)s)\n"
+        "end\n"
+        "build(%(k)d)\nshout(%(it)s)\n" % {"it": it, "k": k, "op": op})
+
+
+SHAPES = [shape_callee_assign, shape_rec_array, shape_nest, shape_mutual, shape_closure, shape_forward, shape_param_shadow, shape_loop_fn, shape_array_capture]
 
 
 def early_capture(rng, recursion):
@@ -576,7 +623,7 @@ def correspond(env, searching=False, model=True):
     return {
         "evaluations": evaluations,
         "distinct_nontrivial": len(nontriv),
-        "rule": "accepted generated programs (langgen with a 3-name pool, p_shadow 0.6, nesting up to %s, recursion; 7 shape templates; "
+        "rule": "accepted generated programs (langgen with a 3-name pool, p_shadow 0.6, nesting up to %s, recursion; 9 shape templates; "
                 "a dedicated early-capture stream); oracle: implementation (nn) printed values and ending = Spec.run_spec (names-only "
                 "static-link interpreter) unless the reference is stuck/fuel/unsupported, and a stuck reference must not be a normal "
                 "implementation result; model tie: implementation = Lang.run_impl and lexical / lexical_bij true on every accepted "
